@@ -177,3 +177,302 @@ theorem XR.opt {a b : Ty} {g : Val → Val} (hab : XR a b g) (hnil : matchP b 0x
   | _ => simp [valid] at hv
 
 end Nop
+
+namespace Nop
+
+/-- **value wrapper** on either side: a wrapper is its wrapped type on the wire -/
+theorem decInto_wrap (t : Ty) (prior : Val) : decInto (.wrap t) prior = decInto t prior := by
+  funext s
+  simp only [decInto, withPrefix, matchP, decPayload]
+  cases rByte s with
+  | mk r s1 => cases r <;> rfl
+
+theorem XR.wrap_r {a b : Ty} {g : Val → Val} (hab : XR a b g) : XR a (.wrap b) g := by
+  intro v h bs h' prior hv he
+  rw [decInto_wrap]
+  exact hab v h bs h' prior hv he
+
+theorem XR.wrap_l {a b : Ty} {g : Val → Val} (hab : XR a b g) : XR (.wrap a) b g := by
+  intro v h bs h' prior hv he
+  simp only [valid] at hv
+  simp only [encode] at he
+  exact hab v h bs h' prior hv he
+
+/-- the alternatives of a Variant, position-wise -/
+theorem xAlt : ∀ (abfs : List (Ty × Ty × (Val → Val))), (∀ x ∈ abfs, XR x.1 x.2.1 x.2.2) →
+    ∀ (i : Nat) (v : Val) (h : HChan) (bs : Bytes) (h' : HChan) (pr : Option Val),
+      validAlt (abfs.map (·.1)) i v = true → encAlt (abfs.map (·.1)) i v h = .ok (bs, h') →
+      DecOK (decAlt (abfs.map (·.2.1)) i pr) (((abfs.map (·.2.2)).getD i id) v) bs h'.pushed
+  | [], _, i, v, h, bs, h', pr, hv, _ => by simp [validAlt] at hv
+  | (a, b, g) :: rest, hx, 0, v, h, bs, h', pr, hv, he => by
+    simp only [List.map_cons, validAlt] at hv
+    simp only [List.map_cons, encAlt] at he
+    simp only [List.map_cons, decAlt, List.getD_cons_zero]
+    exact hx (a, b, g) (List.mem_cons_self ..) v h bs h' _ hv he
+  | (a, b, g) :: rest, hx, i + 1, v, h, bs, h', pr, hv, he => by
+    simp only [List.map_cons, validAlt] at hv
+    simp only [List.map_cons, encAlt] at he
+    simp only [List.map_cons, decAlt, List.getD_cons_succ]
+    exact xAlt rest (fun x hx' => hx x (List.mem_cons_of_mem _ hx')) i v h bs h' pr hv he
+
+/-- what a Variant holds, seen through the transformer of its active alternative -/
+def varMap (fs : List (Val → Val)) : Val → Val
+  | .tag i x => if i < 0 then .tag i x else .tag i ((fs.getD i.toNat id) x)
+  | v => v
+
+/-- **Variant**: alternative-wise -/
+theorem XR.variant (abfs : List (Ty × Ty × (Val → Val))) (hx : ∀ x ∈ abfs, XR x.1 x.2.1 x.2.2)
+    (hlen : abfs.length ≤ 2 ^ 31) :
+    XR (.variant (abfs.map (·.1))) (.variant (abfs.map (·.2.1))) (varMap (abfs.map (·.2.2))) := by
+  intro v h bs h' prior hv he
+  cases v with
+  | tag i x =>
+    simp only [valid] at hv
+    simp only [encode] at he
+    by_cases hneg : i = -1
+    · subst hneg
+      simp only [BEq.rfl, ↓reduceIte] at hv
+      cases x with
+      | nil =>
+        simp only [show ((-1 : Int) < 0) from by decide, ↓reduceIte, Except.ok.injEq, Prod.mk.injEq] at he
+        obtain ⟨rfl, rfl⟩ := he
+        refine DecOK.withPrefix (p := 0xb8) (by simp [matchP]) ?_
+        simp only [decPayload, List.length_map]
+        refine DecOK.bind (DecOK.decInt (i32_inRange (by decide) (by decide))) ?_ rfl
+        have c1 : (decide ((-1 : Int) < -1) || decide ((abfs.length : Int) ≤ -1)) = false := by
+          simp; omega
+        simp only [c1, Bool.false_eq_true, ↓reduceIte, BEq.rfl, varMap, show ((-1 : Int) < 0) from by decide]
+        exact DecOK.withPrefix (by simp) (DecOK.pure _)
+      | _ => simp [Val.isNil] at hv
+    · have hne : (i == -1) = false := by simp [hneg]
+      simp only [hne, Bool.false_eq_true, ↓reduceIte, Bool.and_eq_true, decide_eq_true_eq] at hv
+      have hnn : ¬ i < 0 := by omega
+      simp only [hnn, ↓reduceIte] at he
+      cases ha : encAlt (abfs.map (·.1)) i.toNat x h with
+      | error er => simp [ha] at he
+      | ok r =>
+        obtain ⟨abs, h2⟩ := r
+        simp only [ha, Except.ok.injEq, Prod.mk.injEq] at he
+        obtain ⟨rfl, rfl⟩ := he
+        have hlt := validAlt_lt (abfs.map (·.1)) i.toNat x hv.2
+        simp only [List.length_map] at hlt
+        refine DecOK.withPrefix (p := 0xb8) (by simp [matchP]) ?_
+        simp only [decPayload, List.length_map]
+        refine DecOK.bind (DecOK.decInt (i32_inRange (by omega) (by omega))) ?_ rfl
+        have c1 : (decide (i < -1) || decide ((abfs.length : Int) ≤ i)) = false := by
+          simp; omega
+        simp only [c1, Bool.false_eq_true, ↓reduceIte, hne, varMap, hnn]
+        exact DecOK.map (g := Val.tag i) (xAlt abfs hx i.toNat x h abs h2 _ hv.2 ha)
+  | _ => simp [valid] at hv
+
+/-- what a Result holds, seen through `g` -/
+def resMap (g : Val → Val) : Val → Val
+  | .tag 0 e => .tag 0 e
+  | .tag _ x => .tag 1 (g x)
+  | v => v
+
+/-- **Result** -/
+theorem XR.result {a b : Ty} {g : Val → Val} (en : Nat) (ek : IntKind) (hab : XR a b g) (herr : matchP b 0xb6 = false) :
+    XR (.result en ek a) (.result en ek b) (resMap g) := by
+  intro v h bs h' prior hv he
+  cases v with
+  | tag i x =>
+    by_cases h0 : i = 0
+    · subst h0
+      cases x with
+      | int e =>
+        simp only [valid] at hv
+        simp only [encode, Except.ok.injEq, Prod.mk.injEq] at he
+        obtain ⟨rfl, rfl⟩ := he
+        refine DecOK.withPrefix (p := 0xb6) (by simp [matchP]) ?_
+        simp only [decPayload, BEq.rfl, ↓reduceIte, resMap]
+        exact DecOK.map (g := fun e => Val.tag 0 (Val.int e)) (DecOK.decInt hv)
+      | _ => simp [valid] at hv
+    · have hi : i = 1 := by
+        by_cases h1 : i = 1
+        · exact h1
+        · exfalso; revert hv; rw [valid]; simp
+          all_goals (intros; simp_all)
+      subst hi
+      simp only [valid] at hv
+      have hen : encode (.result en ek a) (.tag 1 x) h = encode a x h := by
+        rw [encode]; intro e a'; exact absurd a' (by decide)
+      rw [hen] at he
+      intro s rest hc hb hf hr
+      have hin := hab x h bs h' (dflt b) hv he s rest hc hb hf hr
+      unfold decInto at hin ⊢
+      unfold withPrefix at hin ⊢
+      cases hrb : rByte s with
+      | mk r s1 =>
+        rw [hrb] at hin
+        cases r with
+        | error e => simp at hin
+        | ok p =>
+          simp only at hin ⊢
+          by_cases hm : matchP b p = true
+          · have hp : (p == 0xb6) = false := by
+              cases hpe : p == 0xb6 with
+              | false => rfl
+              | true => rw [beq_iff_eq] at hpe; rw [hpe, herr] at hm; exact absurd hm (by simp)
+            simp only [hm, ↓reduceIte] at hin
+            simp only [matchP, hm, Bool.or_true, ↓reduceIte, decPayload, hp, Bool.false_eq_true, bind_run, hin]
+            rfl
+          · simp [hm] at hin
+  | _ => simp [valid] at hv
+
+end Nop
+
+namespace Nop
+
+theorem repP_encAll_map {f : Val → M Val} {d : Val} {enc : Val → HChan → Except Err (Bytes × HChan)} {g : Val → Val}
+    (hmono : ∀ a h b h', enc a h = .ok (b, h') → h.pushed <+: h'.pushed) :
+    ∀ (as : List Val) (h : HChan) (bs : Bytes) (h' : HChan) (pr : List Val),
+      (∀ a ∈ as, ∀ p h b h', enc a h = .ok (b, h') → DecOK (f p) (g a) b h'.pushed) →
+      encAll enc as h = .ok (bs, h') → DecOK (repP as.length pr d f) (as.map g) bs h'.pushed
+  | [], h, bs, h', pr, _, he => by
+    simp only [encAll, Except.ok.injEq, Prod.mk.injEq] at he
+    rw [← he.1, List.length_nil, repP_zero]
+    exact DecOK.pure _
+  | a :: as, h, bs, h', pr, hd, he => by
+    simp only [encAll] at he
+    cases hfa : enc a h with
+    | error e => simp [hfa] at he
+    | ok r =>
+      obtain ⟨b, h1⟩ := r
+      simp only [hfa] at he
+      cases hrest : encAll enc as h1 with
+      | error e => simp [hrest] at he
+      | ok r2 =>
+        obtain ⟨bs', h2⟩ := r2
+        simp only [hrest, Except.ok.injEq, Prod.mk.injEq] at he
+        have ih := repP_encAll_map (f := f) (d := d) (g := g) hmono as h1 bs' h2 pr.tail
+          (fun a' ha' => hd a' (List.mem_cons_of_mem _ ha')) hrest
+        have h0 := hd a (List.mem_cons_self ..) (pr.headD d) h b h1 hfa
+        have hm : h1.pushed <+: h2.pushed := encAll_mono as h1 bs' h2 (fun a _ => hmono a) hrest
+        rw [← he.1, ← he.2, List.length_cons, repP_succ, List.map_cons]
+        exact DecOK.bind (h0.weaken hm) (DecOK.bind ih (DecOK.pure _) (by simp)) rfl
+
+/-- **std::array / C array** of non-integral elements (same length on both sides) -/
+theorem XR.array {a b : Ty} {g : Val → Val} (fa fb : Flavor) (n : Nat)
+    (hfa : fa = .array n ∨ fa = .carray n) (hfb : fb = .array n ∨ fb = .carray n)
+    (hab : XR a b g) (ha : a.integral = false) (hb : b.integral = false) :
+    XR (.seq fa a) (.seq fb b) (fun v => .list (v.elems.map g)) := by
+  intro v h bs h' prior hv he
+  cases v with
+  | list vs =>
+    have hlen : vs.length = n := by
+      simp only [valid, Bool.and_eq_true] at hv
+      rcases hfa with rfl | rfl <;> simpa using hv.1.1
+    have hall' : ∀ x ∈ vs, valid a x = true := by
+      simp only [valid, Bool.and_eq_true] at hv
+      exact (allP_iff _ _).1 hv.1.2
+    have hsz : vs.length * a.width < 2 ^ 64 := by
+      simp only [valid, Bool.and_eq_true, decide_eq_true_eq] at hv
+      exact hv.2
+    have hw := width_pos a
+    have hov : lbufOver fa vs.length = false := by rcases hfa with rfl | rfl <;> rfl
+    simp only [encode, hov, ha, Bool.false_eq_true, ↓reduceIte] at he
+    cases hall2 : encAll (encode a) vs h with
+    | error er => simp [hall2] at he
+    | ok r =>
+      obtain ⟨ebs, h2⟩ := r
+      simp only [hall2, Except.ok.injEq, Prod.mk.injEq] at he
+      obtain ⟨rfl, rfl⟩ := he
+      have hn : vs.length < 2 ^ 64 := by
+        have : vs.length ≤ vs.length * a.width := Nat.le_mul_of_pos_right _ hw
+        omega
+      refine DecOK.withPrefix (p := 0xba) (by simp [matchP, hb]) ?_
+      have hloop := repP_encAll_map (d := dflt b) (g := g)
+        (f := fun pr => withPrefix (matchP b) (fun p => decPayload b p pr))
+        (fun x h b' h' hab' => encode_mono a x h b' h' hab') vs h ebs h2 prior.elems
+        (fun x hx pr h b' h' hab' => hab x h b' h' pr (hall' x hx) hab') hall2
+      rcases hfb with rfl | rfl
+      all_goals
+        simp only [decPayload, hb, Bool.false_eq_true, ↓reduceIte]
+        refine DecOK.bind (DecOK.decSize hn) ?_ rfl
+        simp only [hlen, bne_self_eq_false, Bool.false_eq_true, ↓reduceIte]
+        rw [hlen] at hloop
+        exact DecOK.map (g := Val.list) hloop
+  | _ => simp [valid] at hv
+
+/-- a map entry `(l k v)` with its mapped value seen through `g` -/
+def kvMap (g : Val → Val) : Val → Val
+  | .list [a, b] => .list [a, g b]
+  | v => v
+
+theorem kvKey_kvMap (g : Val → Val) (kv : Val) : kvKey (kvMap g kv) = kvKey kv := by
+  cases kv with
+  | list l =>
+    match l with
+    | [] => rfl
+    | [_] => rfl
+    | [_, _] => rfl
+    | _ :: _ :: _ :: _ => rfl
+  | _ => rfl
+
+theorem keysDistinct_map (g : Val → Val) : ∀ (kvs : List Val), keysDistinct kvs = true → keysDistinct (kvs.map (kvMap g)) = true
+  | [], _ => rfl
+  | kv :: rest, h => by
+    simp only [keysDistinct, Bool.and_eq_true, List.all_eq_true] at h
+    simp only [List.map_cons, keysDistinct, Bool.and_eq_true, List.all_eq_true, List.mem_map]
+    refine ⟨?_, keysDistinct_map g rest h.2⟩
+    rintro x ⟨y, hy, rfl⟩
+    rw [kvKey_kvMap, kvKey_kvMap]
+    exact h.1 y hy
+
+/-- **std::map / std::unordered_map**: same key type, mapped values through `g` -/
+theorem XR.map {k a b : Ty} {g : Val → Val} (o o' : Bool) (hk : XR k k id) (hab : XR a b g) :
+    XR (.map o k a) (.map o' k b) (fun v => .list (v.elems.map (kvMap g))) := by
+  intro v h bs h' prior hv he
+  cases v with
+  | list kvs =>
+    simp only [valid, Bool.and_eq_true, decide_eq_true_eq] at hv
+    obtain ⟨⟨hall, hdist⟩, hlen⟩ := hv
+    have hall' := (allP_iff _ _).1 hall
+    simp only [encode] at he
+    cases hp : encAll (pairEnc (encode k) (encode a)) kvs h with
+    | error er => simp [hp] at he
+    | ok r =>
+      obtain ⟨ebs, h2⟩ := r
+      simp only [hp, Except.ok.injEq, Prod.mk.injEq] at he
+      obtain ⟨rfl, rfl⟩ := he
+      refine DecOK.withPrefix (p := 0xbb) (by simp [matchP]) ?_
+      simp only [decPayload]
+      refine DecOK.bind (DecOK.decSize hlen) ?_ rfl
+      have hloop := repM_encAll_map (g := kvMap g)
+        (f := (withPrefix (matchP k) (fun p => decPayload k p (dflt k)) >>= fun x =>
+               withPrefix (matchP b) (fun p => decPayload b p (dflt b)) >>= fun y =>
+               (Pure.pure (Val.list [x, y]) : M Val)))
+        (fun x h b' h' hab' => pairEnc_mono x h b' h' hab') kvs h ebs h2
+        (by
+          intro kv hkv h0 bb h1 hab'
+          have hkvv := hall' kv hkv
+          cases kv with
+          | list l =>
+            match l, hkvv with
+            | [x, y], hkvv =>
+              simp only [Bool.and_eq_true] at hkvv
+              simp only [pairEnc, kvKey, kvVal, Val.elems, List.headD_cons, List.tail_cons] at hab'
+              cases hx : encode k x h0 with
+              | error er => simp [hx] at hab'
+              | ok r1 =>
+                obtain ⟨ba, hm1⟩ := r1
+                simp only [hx] at hab'
+                cases hy : encode a y hm1 with
+                | error er => simp [hy] at hab'
+                | ok r2 =>
+                  obtain ⟨bb2, hm2⟩ := r2
+                  simp only [hy, Except.ok.injEq, Prod.mk.injEq] at hab'
+                  obtain ⟨rfl, rfl⟩ := hab'
+                  have d1 := (hk x h0 ba hm1 (dflt k) hkvv.1 hx).weaken (encode_mono a _ _ _ _ hy)
+                  have d2 := hab y hm1 bb2 hm2 (dflt b) hkvv.2 hy
+                  exact DecOK.bind d1 (DecOK.bind d2 (DecOK.pure _) (by simp)) rfl
+          | int _ => simp at hkvv
+          | nil => simp at hkvv
+          | tag _ _ => simp at hkvv) hp
+      have := DecOK.map (g := fun kvs => Val.list (dedupKeys kvs)) hloop
+      rw [dedupKeys_of_distinct _ (keysDistinct_map g kvs hdist)] at this
+      exact this
+  | _ => simp [valid] at hv
+
+end Nop
